@@ -1209,8 +1209,8 @@ def _many_programs(draw):
 
 def subs(tier):
     return [
-        Generated("stmt", check_stmt, strategy=_programs(), quick=1600, thorough=60000, budget_s_quick=20.0),
-        Generated("live", check_live, strategy=_programs(), quick=1200, thorough=40000, budget_s_quick=10.0),
-        Generated("many", check_many, strategy=_many_programs(), quick=1000, thorough=20000, budget_s_quick=6.0),
-        Generated("many_live", check_many_live, strategy=_many_programs(), quick=600, thorough=15000, budget_s_quick=5.0),
+        Generated("stmt", check_stmt, strategy=_programs(), quick=1600, thorough=60000, budget_s_quick=40.0),
+        Generated("live", check_live, strategy=_programs(), quick=1200, thorough=40000, budget_s_quick=25.0),
+        Generated("many", check_many, strategy=_many_programs(), quick=1000, thorough=20000, budget_s_quick=15.0),
+        Generated("many_live", check_many_live, strategy=_many_programs(), quick=600, thorough=15000, budget_s_quick=10.0),
     ]
